@@ -18,6 +18,7 @@ import MagpyVerif.Lemmas.KernAlgebra
 import MagpyVerif.Lemmas.KernCylinder
 import MagpyVerif.Lemmas.OctaCarrier
 import MagpyVerif.Lemmas.Level2Post
+import MagpyVerif.Lemmas.WrapLinear
 import MagpyVerif.Props.C13
 namespace MagpyVerif.C05
 open MagpyVerif MagpyVerif.Level2
@@ -631,5 +632,196 @@ example (t : Tri ℝ) (inside : List (Tri ℝ) → V3 ℝ → Bool) [DecidableEq
   rw [C13.trimesh_is_wrapH_of_sheets]
   simp only [List.map_cons, List.map_nil, hin, hout, wrapH]
   refine List.cons_eq_cons.mpr ⟨?_, List.cons_eq_cons.mpr ⟨?_, rfl⟩⟩ <;> (apply V3.ext' <;> simp [vs, zero3, n])
+
+end MagpyVerif.C05
+
+/-! ### linearity at the level of the BHJM WRAPPERS, every mask row included (c05wrap)
+
+The theorems above are about the closed-form kernels.  The wrappers `BHJM_*` add masks — some computed from the excitation
+itself (`pol == 0` rows of Cuboid and Cylinder return 0 without a kernel call; the Cylinder calls its transversal kernel only on
+rows with `pol_x != 0 | pol_y != 0` and its axial kernel only on rows with `pol_z != 0`), the others from geometry (zero dimension,
+on an edge, on the surface, inside / outside, on the axis / wire / carrier line).  A mask on the excitation is compatible with
+linearity only if the skipped formula vanishes there (it does: `cuboid_kernel_vanishes_at_zero_polarization`,
+`cylinder_zero_polarization_row`), and a SUM of two non-zero excitations can be zero or lose its transversal / axial part, so the
+three evaluations of `f (a·p + b·q) = a·f p + b·f q` may run through three different mask rows.  Below: for every modelled wrapper,
+all four fields, arbitrary real `a b` and arbitrary excitations, any value `μ` of mu_0.  No wrapper has a threshold on the size
+of the excitation (all excitation masks are exact `== 0` tests), so none of the statements needs a witness of non-linearity. -/
+namespace MagpyVerif.C05
+open MagpyVerif MagpyVerif.Kern MagpyVerif.Kern.CylSeg
+
+/-- the general-case formula of `magnet_cuboid_Bfield` is 0 at polarization 0 — what the mask `mask_pol_not_null` relies on -/
+theorem cuboid_kernel_vanishes_at_zero_polarization (μ : ℝ) (dim x : V3 ℝ) : letI := realNum μ
+    cuboidB dim ⟨0, 0, 0⟩ x = zero3 :=
+  cuboidB_pol_zero μ dim ⟨0, 0, 0⟩ x rfl rfl rfl
+
+/-- `BHJM_magnet_cuboid` is the dispatch with the GEOMETRIC masks only (inside; `mask_dim_not_null & mask_not_edge`, i.e. the
+general mask of a probe polarization ≠ 0) applied to the kernel value: the `pol == 0` mask never changes a result -/
+theorem cuboid_pol_mask_is_redundant (μ : ℝ) (f : Field) (dim pol x : V3 ℝ) : letI := realNum μ
+    bhjmCuboid f dim pol x =
+      wrapB f (cuboidMasks dim ⟨1, 1, 1⟩ x).inside (cuboidMasks dim ⟨1, 1, 1⟩ x).general pol (cuboidB dim pol x) :=
+  bhjmCuboid_eq_geo μ f dim pol x
+
+/-- **C05 (Cuboid wrapper)**: B, H, J, M of `BHJM_magnet_cuboid` are linear in the polarization at every observer — inside,
+outside, on a face, on an edge / corner (B = 0 there), for a cuboid with a zero side (B = 0), and through the `pol == 0` rows -/
+theorem cuboid_wrapper_linear (μ a b : ℝ) (f : Field) (dim p q x : V3 ℝ) : letI := realNum μ
+    bhjmCuboid f dim (vs a p + vs b q) x = vs a (bhjmCuboid f dim p x) + vs b (bhjmCuboid f dim q x) :=
+  bhjmCuboid_linear' μ a b f dim p q x
+
+-- non-vacuity: p and −p in one statement — the left side runs through the `pol == 0` row, the right side through the
+-- general row twice (observer outside, off the edges): B(p) + B(−p) = 0 is a statement about the kernel values
+example (μ : ℝ) (dim p x : V3 ℝ) : letI := realNum μ
+    vs 1 (bhjmCuboid .B dim p x) + vs 1 (bhjmCuboid .B dim (vs (-1) p) x) = zero3 := by
+  letI := realNum μ
+  have h := cuboid_wrapper_linear μ 1 1 .B dim p (vs (-1) p) x
+  have e : vs 1 p + vs 1 (vs (-1) p) = (⟨0, 0, 0⟩ : V3 ℝ) := by apply V3.ext' <;> simp [vs]
+  rw [e] at h
+  rw [← h, cuboid_pol_mask_is_redundant, cuboid_kernel_vanishes_at_zero_polarization]
+  cases (cuboidMasks dim (⟨1, 1, 1⟩ : V3 ℝ) x).inside <;> cases (cuboidMasks dim (⟨1, 1, 1⟩ : V3 ℝ) x).general <;>
+    (apply V3.ext' <;> simp [wrapB, zero3, n])
+-- … and the general row is really reached: the masks of a unit cube at the observer (3, 4, 5)
+example : letI := realNum 1
+    (cuboidMasks (⟨1, 1, 1⟩ : V3 ℝ) ⟨1, 2, 3⟩ ⟨3, 4, 5⟩).general = true ∧
+    (cuboidMasks (⟨1, 1, 1⟩ : V3 ℝ) ⟨0, 0, 0⟩ ⟨3, 4, 5⟩).general = false := by
+  constructor <;> (simp [cuboidMasks, n]; try norm_num)
+
+/-- **C05 (Sphere wrapper)**: `BHJM_magnet_sphere`, inside and outside (the mask `r > r_sphere` does not see the polarization) -/
+theorem sphere_wrapper_linear (μ a b : ℝ) (f : Field) (d : ℝ) (p q x : V3 ℝ) : letI := realNum μ
+    bhjmSphere f d (vs a p + vs b q) x = vs a (bhjmSphere f d p x) + vs b (bhjmSphere f d q x) :=
+  bhjmSphere_linear' μ a b f d p q x
+
+example : letI := realNum 1
+    bhjmSphere .B 2 (vs 2 ⟨1, 0, 0⟩ + vs 3 ⟨0, 1, 0⟩) (⟨0, 0, 0⟩ : V3 ℝ) = ⟨2 * (2 / 3), 3 * (2 / 3), 0⟩ := by
+  simp [bhjmSphere, Kern.norm, vs, n]
+  norm_num
+
+/-- **C05 (Dipole wrapper)**: `BHJM_dipole` off the dipole position (the model has no `r == 0` row: there the code returns
+±inf / 0 per component, which no real-valued statement covers) -/
+theorem dipole_wrapper_linear (μ a b : ℝ) (f : Field) (m1 m2 x : V3 ℝ) : letI := realNum μ
+    bhjmDipole f (vs a m1 + vs b m2) x = vs a (bhjmDipole f m1 x) + vs b (bhjmDipole f m2 x) :=
+  bhjmDipole_linear' μ a b f m1 m2 x
+
+example : (vs 2 (⟨1, 0, 0⟩ : V3 ℝ) + vs 3 ⟨0, 1, 0⟩) = ⟨2, 3, 0⟩ := by apply V3.ext' <;> simp [vs]
+
+/-- **C05 (Polyline wrapper, one segment row of `BHJM_current_polyline`)**: linear in the current, including the rows
+`segment_start == segment_end` (0) and observers on the carrier line (`norm_o4 < 1e-15`: 0) -/
+theorem polyline_segment_wrapper_linear (μ a b : ℝ) (f : Field) (c1 c2 : ℝ) (p1 p2 po : V3 ℝ) : letI := realNum μ
+    bhjmSegment f (a * c1 + b * c2) p1 p2 po = vs a (bhjmSegment f c1 p1 p2 po) + vs b (bhjmSegment f c2 p1 p2 po) :=
+  bhjmSegment_linear' μ a b f c1 c2 p1 p2 po
+
+/-- … and a whole Polyline instance (the sum over its consecutive vertex pairs) -/
+theorem polyline_wrapper_linear (a b : ℝ) (f : Field) (c1 c2 : ℝ) (verts : List (V3 ℝ)) (po : V3 ℝ) :
+    polylineRow f (a * c1 + b * c2) verts po = vs a (polylineRow f c1 verts po) + vs b (polylineRow f c2 verts po) := by
+  unfold polylineRow
+  rw [← sum3_linear a b (pairs verts)]
+  congr 1
+  apply List.map_congr_left
+  intro ab _
+  exact bhjmSegment_linear' mu0R a b f c1 c2 ab.1 ab.2 po
+
+example : pairs [(1 : Nat), 2, 3] = [(1, 2), (2, 3)] := rfl
+
+/-- **C05 (Circle wrapper)**: `BHJM_circle` is linear in the current through all its rows (zero diameter, on the wire, on the
+axis, general), as an equation between optional results: `none` (a cel iteration did not exit within `fuel`) for one current
+is `none` for every current (`circle_wrapper_defined_independent_of_current`; with the fuel of Props/C15 it never occurs) -/
+theorem circle_wrapper_linear (μ a b : ℝ) (fuel : Nat) (f : Field) (d i1 i2 : ℝ) (x : V3 ℝ) : letI := realNum μ
+    bhjmCircle fuel f d (a * i1 + b * i2) x = olin a b (bhjmCircle fuel f d i1 x) (bhjmCircle fuel f d i2 x) :=
+  bhjmCircle_linear' μ a b fuel f d i1 i2 x
+
+theorem circle_wrapper_defined_independent_of_current (μ : ℝ) (fuel : Nat) (f : Field) (d i1 i2 : ℝ) (x : V3 ℝ) :
+    letI := realNum μ
+    (bhjmCircle fuel f d i1 x).isSome = (bhjmCircle fuel f d i2 x).isSome :=
+  bhjmCircle_isSome_current μ fuel f d i1 i2 x
+
+-- non-vacuity: on the axis the three results are rows, and they combine
+example : letI := realNum 1
+    bhjmCircle 200 .H 2 (2 * 1 + 3 * 1) (⟨0, 0, 0⟩ : V3 ℝ) = some ⟨0, 0, 5 / 2⟩ ∧
+    olin 2 3 (bhjmCircle 200 .H 2 1 (⟨0, 0, 0⟩ : V3 ℝ)) (bhjmCircle 200 .H 2 1 (⟨0, 0, 0⟩ : V3 ℝ)) = some ⟨0, 0, 5 / 2⟩ := by
+  constructor <;> (simp [bhjmCircle, olin, n]; try norm_num)
+
+/-- the `pol == 0` row of `BHJM_magnet_cylinder`: computed without a kernel call (no `cel` failure possible), 0 in all fields -/
+theorem cylinder_zero_polarization_row (μ : ℝ) (fuel : Nat) (f : Field) (dim : ℝ × ℝ) (x : V3 ℝ) : letI := realNum μ
+    bhjmCylinder fuel f dim ⟨0, 0, 0⟩ x = some ⟨0, 0, 0⟩ :=
+  bhjmCylinder_pol_zero μ fuel f dim x
+
+/-- **C05 (Cylinder wrapper)**: if `BHJM_magnet_cylinder` returns for `p` and for `q` (no `cel` failure) then it RETURNS for
+`a·p + b·q` and the value is the combination — through every mask row: `p`, `q`, `a·p + b·q` may each be zero, axial only,
+transversal only or mixed (e.g. `p = (1, 0, 1)`, `q = (−1, 0, 1)`: the sum is axial, the transversal kernel is not called for
+it), on the edge (B = 0, H = −J/μ₀), inside / outside.  Strengthens `cylinder_linear_in_polarization`, which assumes the
+third evaluation. -/
+theorem cylinder_wrapper_linear (μ a b : ℝ) (fuel : Nat) (f : Field) (dim : ℝ × ℝ) (p q x v1 v2 : V3 ℝ) : letI := realNum μ
+    bhjmCylinder fuel f dim p x = some v1 → bhjmCylinder fuel f dim q x = some v2 →
+    bhjmCylinder fuel f dim (vs a p + vs b q) x = some (vs a v1 + vs b v2) :=
+  bhjmCylinder_linear_some μ a b fuel f dim p q x v1 v2
+
+/-- **C05 (Cylinder wrapper), unconditional** for valid dimensions (`0 < d`, `0 ≤ h`) and the fuel of Props/C15
+(`cylFuelX`, a function of geometry and observer only): all three evaluations return, and they combine.  (mu_0 = 4π·1e-7) -/
+theorem cylinder_wrapper_linear_total (a b : ℝ) (fuel : ℕ) (f : Field) (d h : ℝ) (hd : 0 < d) (hh : 0 ≤ h) (p q x : V3 ℝ)
+    (hf : cylFuelX d h x ≤ fuel) :
+    ∃ v1 v2, bhjmCylinder fuel f (d, h) p x = some v1 ∧ bhjmCylinder fuel f (d, h) q x = some v2 ∧
+      bhjmCylinder fuel f (d, h) (vs a p + vs b q) x = some (vs a v1 + vs b v2) :=
+  bhjmCylinder_linear_total a b fuel f d h hd hh p q x hf
+
+-- non-vacuity: the hypotheses are satisfiable with polarizations that cancel transversally: p = (1, 0, 1), q = (−1, 0, 1)
+example (fuel : ℕ) (x : V3 ℝ) (hf : cylFuelX 2 3 x ≤ fuel) :
+    ∃ v1 v2, bhjmCylinder fuel .B (2, 3) ⟨1, 0, 1⟩ x = some v1 ∧ bhjmCylinder fuel .B (2, 3) ⟨-1, 0, 1⟩ x = some v2 ∧
+      bhjmCylinder fuel .B (2, 3) (vs 1 ⟨1, 0, 1⟩ + vs 1 ⟨-1, 0, 1⟩) x = some (vs 1 v1 + vs 1 v2) ∧
+      (vs 1 (⟨1, 0, 1⟩ : V3 ℝ) + vs 1 ⟨-1, 0, 1⟩) = ⟨0, 0, 2⟩ := by
+  obtain ⟨v1, v2, h1, h2, h3⟩ := cylinder_wrapper_linear_total 1 1 fuel .B 2 3 (by norm_num) (by norm_num) ⟨1, 0, 1⟩ ⟨-1, 0, 1⟩ x hf
+  refine ⟨v1, v2, h1, h2, h3, ?_⟩
+  apply V3.ext' <;> simp [vs] <;> norm_num
+
+/-- **C05 (CylinderSegment, the function the class calls)**: `BHJM_cylinder_segment_internal` — the segment solution below
+360° (exactly linear, NaN rows included: `cylseg_linear_in_magnetization`) and Cylinder(2 r2) − [r1 ≠ 0] Cylinder(2 r1) from 360°
+on: whenever it returns for `p` and `q` it returns the combination for `a·p + b·q` -/
+theorem cylseg_internal_wrapper_linear (μ : ℝ) (S : SegSpecial) (a b : ℝ) (fuel : Nat) (f : Field) (x : V3 ℝ)
+    (r1 r2 h p1 p2 : ℝ) (p q v1 v2 : V3 ℝ) :
+    @bhjmCylSegInternal ℝ (realNumX μ S) fuel f x r1 r2 h p1 p2 p = some v1 →
+    @bhjmCylSegInternal ℝ (realNumX μ S) fuel f x r1 r2 h p1 p2 q = some v2 →
+    @bhjmCylSegInternal ℝ (realNumX μ S) fuel f x r1 r2 h p1 p2 (lin2 a b p q) = some (lin2 a b v1 v2) :=
+  bhjmCylSegInternal_linear_some μ S a b fuel f x r1 r2 h p1 p2 p q v1 v2
+
+-- non-vacuity: J of the full ring (360°: the Cylinder branch) at the centre of the wall is a row for every polarization
+example (μ : ℝ) (S : SegSpecial) (pol : V3 ℝ) :
+    (@bhjmCylSegInternal ℝ (realNumX μ S) 0 .J ⟨3 / 2, 0, 0⟩ 1 2 2 0 360 pol).isSome = true := by
+  rw [internal_full_ring μ S 0 .J _ 1 2 2 0 360 pol (by norm_num)]
+  simp [bhjmCylinder, bhjmCylinderRow]
+
+/-- Triangle, Tetrahedron, TriangularMesh row: the wrappers have no mask on the polarization; their wrapper-level statements
+are `bhjmTriangle_linear`, `bhjmTetra_linear`, `trimesh_linear_in_polarization` above (zero-area sheet, inside / outside,
+chirality fix: geometry only).  Collected here for generic μ. -/
+theorem triangle_tetra_wrapper_linear (μ a b : ℝ) (f : Field) (v0 v1 v2 v3 p q x : V3 ℝ) : letI := realNum μ
+    bhjmTriangle f v0 v1 v2 (vs a p + vs b q) x = vs a (bhjmTriangle f v0 v1 v2 p x) + vs b (bhjmTriangle f v0 v1 v2 q x) ∧
+    bhjmTetra f v0 v1 v2 v3 (vs a p + vs b q) x = vs a (bhjmTetra f v0 v1 v2 v3 p x) + vs b (bhjmTetra f v0 v1 v2 v3 q x) :=
+  ⟨bhjmTriangle_linear' μ a b f v0 v1 v2 p q x, bhjmTetra_linear' μ a b f v0 v1 v2 v3 p q x⟩
+
+end MagpyVerif.C05
+
+/-! ### the one row of a wrapper that is NOT linear: the Dipole at its own position (c05wrap)
+
+`dipole_Hfield` has the mask `r == 0`: there `H = moment / 0.0` with NaN → 0, i.e. +inf / −inf / 0 per component
+(`Model/DipoleSing.lean`; B = μ₀H the same, J = M = 0).  No extension of the reals makes that additive. -/
+namespace MagpyVerif.C05
+open MagpyVerif MagpyVerif.Kern
+
+/- FULL: `BHJM_dipole` with its `r == 0` row is linear in the moment at every observer:
+   H(a·m1 + b·m2) = a·H(m1) + b·H(m2).   FALSE at the dipole position — witness: -/
+/-- **witness**: `m1 = (1, 0, 0)`, `m2 = (−1, 0, 0)` at the dipole position: H(m1) = (+inf, 0, 0), H(m2) = (−inf, 0, 0), but
+H(m1 + m2) = H(0) = (0, 0, 0) — whereas (+inf) + (−inf) is no number (NaN in IEEE arithmetic) -/
+theorem dipole_at_position_not_additive : letI := realNum 1
+    bhjmDipoleAtPosition .H (⟨1, 0, 0⟩ : V3 ℝ) = ⟨.pinf, .zero, .zero⟩ ∧
+    bhjmDipoleAtPosition .H (⟨-1, 0, 0⟩ : V3 ℝ) = ⟨.ninf, .zero, .zero⟩ ∧
+    bhjmDipoleAtPosition .H ((⟨1, 0, 0⟩ : V3 ℝ) + ⟨-1, 0, 0⟩) = ⟨.zero, .zero, .zero⟩ := by
+  refine ⟨?_, ?_, ?_⟩ <;> simp [bhjmDipoleAtPosition, singOf, n]
+
+/-- what holds there (`…_partial`): the row is positively homogeneous of degree 0 in the value set {−inf, 0, +inf}
+(`c·(±inf) = ±inf` for `c > 0`: consistent with proportionality) and odd -/
+theorem dipole_at_position_homogeneous_partial (μ c : ℝ) (hc : 0 < c) (f : Field) (m : V3 ℝ) : letI := realNum μ
+    bhjmDipoleAtPosition f (vs c m) = bhjmDipoleAtPosition f m ∧
+    bhjmDipoleAtPosition f (vs (-1) m) =
+      ⟨(bhjmDipoleAtPosition f m).x.neg, (bhjmDipoleAtPosition f m).y.neg, (bhjmDipoleAtPosition f m).z.neg⟩ := by
+  letI := realNum μ
+  cases f <;> simp only [bhjmDipoleAtPosition, vs, singOf_pos_smul μ c hc, neg_one_mul, singOf_neg, Sing.neg, and_self]
+
+example : (0 : ℝ) < 2 := by norm_num
 
 end MagpyVerif.C05
